@@ -213,3 +213,98 @@ func decoySim(sc *StepCase, r *Rng) {
 		s.Reset()
 	}
 }
+
+// ---------------------------------------------------------------------------
+// systematic strata (small-scope enumeration), in front of the random cases
+
+// gridSize is the number of cases of the boundary grid: every form x A in {0,1,2,M-1} x
+// B in {0,1,2,M-1} x six limit classes, each executed once at the PC of a tiny core.
+const gridSize = int64(numForms) * 16 * 6
+
+func genGridCase(gidx int64, r *Rng) *StepCase {
+	sc := &StepCase{}
+	form := int(gidx % int64(numForms))
+	rest := int(gidx / int64(numForms))
+	ai, bi, lc := rest%4, (rest/4)%4, rest/16
+	m := r.Range(3, 8)
+	sc.M = m
+	switch lc {
+	case 0:
+		sc.R, sc.W = m, m
+	case 1:
+		sc.R, sc.W = 1, m
+	case 2:
+		sc.R, sc.W = m, 1
+	case 3:
+		sc.R, sc.W = 1, 1
+	case 4:
+		sc.R, sc.W = 2, 2
+	default:
+		sc.R, sc.W = m-1, r.Range(1, m)
+	}
+	sc.P = r.Range(1, 3)
+	sc.PC = r.Intn(m)
+	if r.Chance(1, 3) {
+		sc.PC = m - 1
+	}
+	sc.K = r.Range(1, 2)
+	sc.Core = make([]mars.Insn, m)
+	for i := range sc.Core {
+		sc.Core[i] = randInsn(r, m, sc.R, sc.W)
+	}
+	vals := []int{0, 1, 2 % m, m - 1}
+	f := formInsn(form)
+	f.A, f.B = vals[ai], vals[bi]
+	sc.Core[sc.PC] = f
+	return sc
+}
+
+// genLargeCase: arithmetic and pointer chains on cores above 2^16 (products above 2^32, fields above 2^16)
+func genLargeCase(r *Rng) *StepCase {
+	sc := &StepCase{}
+	sc.M = []int{65537, 70001, 100000, 1 << 17, 250000, 1 << 20}[r.Intn(6)]
+	m := sc.M
+	sc.R, sc.W = m, m
+	if r.Chance(1, 3) {
+		sc.R, sc.W = r.Range(m/2, m), r.Range(m/2, m)
+	}
+	sc.P = 3
+	sc.PC = r.Intn(m)
+	sc.K = r.Range(1, 3)
+	sc.Core = make([]mars.Insn, m)
+	for i := range sc.Core {
+		sc.Core[i] = mars.Empty
+	}
+	big := func() int {
+		switch r.Intn(4) {
+		case 0:
+			return m - 1 - r.Intn(3)
+		case 1:
+			return 65536 + r.Intn(m-65536)
+		default:
+			return r.Intn(m)
+		}
+	}
+	for n := 0; n < 64; n++ {
+		a := (sc.PC + n - 8 + m) % m
+		ins := randInsn(r, m, sc.R, sc.W)
+		ins.A, ins.B = big(), big()
+		if n >= 8 && n < 16 {
+			ins.A, ins.B = r.Intn(8), r.Intn(8) // near pointers so that operands are found among the big-valued cells
+		}
+		sc.Core[a] = ins
+	}
+	ops := []mars.Op{mars.MUL, mars.MUL, mars.MUL, mars.ADD, mars.SUB, mars.DIV, mars.MOD, mars.MOV, mars.DJN, mars.SLT}
+	f := mars.Insn{Op: ops[r.Intn(len(ops))], Mod: mars.Mod(r.Intn(int(mars.NumMods))), AM: mars.Mode(r.Intn(int(mars.NumModes))), BM: mars.Mode(r.Intn(int(mars.NumModes)))}
+	f.A, f.B = r.Intn(6), r.Intn(6)
+	if r.Chance(1, 2) {
+		f.AM = mars.IMM
+		f.A = big()
+	}
+	if r.Chance(1, 3) {
+		f.BM = mars.IMM
+		f.B = big()
+	}
+	sc.Core[sc.PC] = f
+	return sc
+}
